@@ -113,7 +113,9 @@ class IndxIO(object):
             offset=offset,
         )
         ptr = 0
-        for length, coords in zip(lengths, all_coords):
+        # Python ints: a running offset in the (possibly 1- or 2-byte)
+        # rowid word type would wrap around.
+        for length, coords in zip(lengths.tolist(), all_coords):
             rowids = rowid_lists[ptr : ptr + length]
             ptr += length
             # For now, force uint32 everywhere.
